@@ -92,3 +92,19 @@ Definition run_case (np : nat) (obj : edict) (tracked : sent) (temp : list dval)
        dump_dval res;
        dump_edict fd;
        DQ tau ].
+
+(** one case of the C14 stream: the problem before and after prepare_heuristic + heuristic (rows evaluated at the
+    tagged point, objective), and what stays exposed: the certificate of the FIRST solve's duals. *)
+Definition run_case_heuristic (np : nat) (obj : edict) (tracked : sent) (temp : list dval)
+           (G : list (list Q)) (F : list Q) (M : list (list (list Q))) (wc tol : Q) (W : list (list Q)) : D :=
+  let w0 := generate_problem obj tracked in
+  let w2 := heuristic (prepare_heuristic w0 wc tol) W in
+  let '(a, res, fd, tau) := certificate obj tracked temp in
+  DL [ DL (map (dump_row G F M np) (p_rows (w_prob w0)));
+       dump_objective G F (p_obj (w_prob w0));
+       DL (map (dump_row G F M np) (p_rows (w_prob w2)));
+       dump_objective G F (p_obj (w_prob w2));
+       DL (map (fun '(_, d) => dump_dval d) a);
+       dump_dval res;
+       dump_edict fd;
+       DQ tau ].
